@@ -30,6 +30,7 @@ From PQ Require Import Cursor.Nested Cursor.NestedProofs.
 From PQ Require Import Cursor.ColumnPages Cursor.ColumnPagesProofs.
 From PQ Require Import Cursor.Forward Cursor.ForwardProofs.
 From PQ Require Import Cursor.VariantLeaves Cursor.VariantLeavesProofs.
+From PQ Require Import Cursor.Copy Cursor.CopyProofs.
 Import ListNotations.
 
 (** ** Page cursor with an offset index *)
@@ -377,6 +378,76 @@ Theorem C08_reader_seek_then_read : forall rg_rows cols h k ns,
     (run_reader_indexed cols (h ++ XSeek k :: map XReadRows ns)))) =
   widen (length cols) (firstn (list_sum ns) (skipn k (seq 0 (list_sum rg_rows)))).
 Proof. exact reader_indexed_seek_then_read. Qed.
+
+(** ** parquet.CopyRows as an operation of the histories of a row reader
+
+    Cursor/Copy.v: CopyRows(dst, reader) over a reader without a bulk shortcut
+    is ReadRows(42) until io.EOF ([copy_loop], row.go copyRows /
+    Writer.ReadRowsFrom); [run_k]: histories of reader operations and copies.
+    The copy is defined on the run function of the reader model, so every
+    refinement theorem above carries over to histories with copies
+    ([C08_copy_histories_*]); and over one row position the copy hands over
+    exactly the rows from the position to the end, ends on io.EOF and leaves
+    the reader at the end ([C08_copy_hands_over_the_rest*]): the reads that
+    follow return no row, a seek back followed by reads returns the rows from
+    there.  The readers that take a shortcut (rowBufferRows.WriteRowsTo) have
+    no model of their own: they are compared by execution with [run_k] over the
+    rowGroupRows model of one-page columns. *)
+Theorem C08_copy_histories_rows_multi_column : forall N cols fuel ops,
+  layout_ok N cols -> run_mrows_indexed_k cols fuel ops = run_mspec_k true (length cols) N fuel ops.
+Proof. exact mrows_indexed_k_refines. Qed.
+
+Theorem C08_copy_histories_rows_multi_column_noindex : forall N cols fuel ops,
+  layout_ok N cols -> run_mrows_noindex_k cols fuel ops = run_mspec_k false (length cols) N fuel ops.
+Proof. exact mrows_noindex_k_refines. Qed.
+
+Theorem C08_copy_histories_rows_multi_row_group : forall rg_rows cols fuel ops,
+  file_ok rg_rows cols ->
+  run_mgrows_indexed_k cols fuel ops = run_mspec_k false (length cols) (list_sum rg_rows) fuel ops.
+Proof. exact mgrows_indexed_k_refines. Qed.
+
+Theorem C08_copy_histories_reader : forall rg_rows cols fuel ops,
+  file_ok rg_rows cols ->
+  run_reader_indexed_k cols fuel ops = run_xspec_k (length cols) (list_sum rg_rows) fuel ops.
+Proof. exact reader_indexed_k_refines. Qed.
+
+Theorem C08_copy_histories_reader_noindex : forall rg_rows cols fuel ops,
+  file_ok rg_rows cols ->
+  run_reader_noindex_k cols fuel ops = run_xspec_k (length cols) (list_sum rg_rows) fuel ops.
+Proof. exact reader_noindex_k_refines. Qed.
+
+Theorem C08_copy_histories_reader_one_row_group : forall N cols fuel ops,
+  layout_ok N cols -> 0 < N ->
+  run_reader1_indexed_k cols fuel ops = run_xspec_k (length cols) N fuel ops.
+Proof. exact reader1_indexed_k_refines. Qed.
+
+Theorem C08_copy_hands_over_the_rest : forall strict ncols N fuel pre,
+  N < copy_batch * fuel ->
+  let pos := exec (mspec_step strict ncols N) 0 pre in
+  exists pre', copy_loop RRead (run_mspec strict ncols N) fuel pre [] =
+                 (pre', MRows (wide ncols (seq pos (N - pos))) true)
+               /\ exec (mspec_step strict ncols N) 0 pre' = Nat.max pos N.
+Proof. exact mspec_copy. Qed.
+
+Theorem C08_copy_hands_over_the_rest_reader : forall ncols N fuel pre,
+  N < copy_batch * fuel ->
+  let pos := exec (xspec_step ncols N) 0 pre in
+  exists pre', copy_loop XReadRows (run_xspec ncols N) fuel pre [] =
+                 (pre', MRows (wide ncols (seq pos (N - pos))) true)
+               /\ exec (xspec_step ncols N) 0 pre' = Nat.max pos N.
+Proof. exact xspec_copy. Qed.
+
+Print Assumptions C08_copy_histories_rows_multi_column.
+Print Assumptions C08_copy_histories_reader.
+Print Assumptions C08_copy_hands_over_the_rest.
+Print Assumptions C08_copy_hands_over_the_rest_reader.
+
+(** non-vacuity: 10 rows in two columns (pages 4+6 and 10), SeekToRow(6), a
+    copy, a read: rows 6..9 are handed over, then nothing is left *)
+Example C08_copy_example :
+  run_mrows_indexed_k [[4; 6]; [10]] 3 [KOp (RSeek 6); KCopy; KOp (RRead 3)] =
+  [MSeekOk; MRows [[6; 6]; [7; 7]; [8; 8]; [9; 9]] true; MRows [] true].
+Proof. vm_compute. reflexivity. Qed.
 
 (** ** asyncPages: every interleaving of the consumer and the producer goroutine
 
